@@ -33,6 +33,7 @@ type C07BlankCase struct {
 	Wrap      int          `json:"wrap"`       // 0: bare Blank; 1: Blank inside a transforming source without manglers; 2: with a (type-preserving here) set->slice mangler
 	Ops       []C07BlankOp `json:"ops"`
 	DoneAfter bool         `json:"done_after,omitempty"` // finish with Blank.Done under a 1h deadline
+	BadWatcherAt int       `json:"bad_watcher_at,omitempty"` // 1-based: before that op the Blank is given a WATCHING source whose Value fails; the failed call must leave nothing behind
 	Reuse     bool         `json:"reuse,omitempty"` // the same Blank is (wrongly) handed to a second Config, which must refuse it without disturbing the first Dials
 	DoneFirst bool         `json:"done_first,omitempty"` // Blank.Done is called before the SetSource calls (the monitor lives on iff there is another watcher)
 }
@@ -42,6 +43,9 @@ func genC07Blank(t *rapid.T) C07BlankCase {
 	c.Wrap = rapid.IntRange(0, 2).Draw(t, "wrap")
 	c.DoneFirst = !c.ExitFirst && rapid.IntRange(0, 4).Draw(t, "done_first") == 0
 	c.Reuse = rapid.IntRange(0, 4).Draw(t, "reuse") == 0
+	if rapid.IntRange(0, 3).Draw(t, "bad_watcher") == 0 {
+		c.BadWatcherAt = rapid.IntRange(1, 5).Draw(t, "bad_watcher_at")
+	}
 	gone := c.ExitFirst || (c.DoneFirst && !c.Other)
 	g := &genState{}
 	n := rapid.IntRange(1, 5).Draw(t, "ops")
@@ -141,6 +145,16 @@ func runC07Blank(c C07BlankCase) (verdict vrt.Verdict) {
 		var cur SimLayer
 		for i := range c.Ops {
 			op := &c.Ops[i]
+			if c.BadWatcherAt == i+1 {
+				bctx, bcancel := context.WithTimeout(context.Background(), time.Hour)
+				berr := blank.SetSource(bctx, &fake.Watcher{Err: errSource})
+				bcancel()
+				synctest.Wait()
+				if berr == nil || !errors.Is(berr, errSource) {
+					fail("before op %d: SetSource with a watching source whose Value fails returned %v, want that error", i, berr)
+					return
+				}
+			}
 			step := fmt.Sprintf("op %d (ctx=%s hold=%q watching inner=%v)", i, op.Ctx, op.Hold, op.Watcher && i == len(c.Ops)-1)
 			l := op.L
 			var src dials.Source = &fake.Static{Mk: func(t *dials.Type) reflect.Value { return l.Value(t.Type()) }}
@@ -275,14 +289,14 @@ func runC07Blank(c C07BlankCase) (verdict vrt.Verdict) {
 	if msg != "" {
 		return vrt.KeyedViolationf("blank", "%s", msg)
 	}
-	return vrt.OK(heldCount > 0 || c.ExitFirst || c.DoneFirst || rejected > 0, fmt.Sprintf("held=%d", min(heldCount, 3)), fmt.Sprintf("exit_first=%v", c.ExitFirst), fmt.Sprintf("done_first=%v", c.DoneFirst), fmt.Sprintf("reuse=%v", c.Reuse), fmt.Sprintf("wrap=%d", c.Wrap))
+	return vrt.OK(heldCount > 0 || c.ExitFirst || c.DoneFirst || rejected > 0, fmt.Sprintf("held=%d", min(heldCount, 3)), fmt.Sprintf("exit_first=%v", c.ExitFirst), fmt.Sprintf("done_first=%v", c.DoneFirst), fmt.Sprintf("reuse=%v", c.Reuse), fmt.Sprintf("bad_watcher=%v", c.BadWatcherAt > 0 && c.BadWatcherAt <= len(c.Ops)), fmt.Sprintf("wrap=%d", c.Wrap))
 }
 
 func TestC08Blank(t *testing.T) {
 	curT = t
 	vrt.Check(t, vrt.Prop[C07BlankCase]{
 		ID: "C08", Name: "blank",
-		Rule: "the histories of C07/blank (1..5 Blank.SetSource calls with live or 1h-deadline contexts against a free, parked or exited monitor, values that verify or not), optionally after a second Config was (wrongly) handed the same Blank and refused it, optionally preceded by Blank.Done (the Blank gave up its watch slot; the monitor lives on iff another watcher exists) and optionally finished by Blank.Done under a 1h deadline; " +
+		Rule: "the histories of C07/blank (1..5 Blank.SetSource calls with live or 1h-deadline contexts against a free, parked or exited monitor, values that verify or not), optionally after a second Config was (wrongly) handed the same Blank and refused it, optionally with a failed SetSource of a watching source whose Value errors in between (it must leave nothing behind), optionally preceded by Blank.Done (the Blank gave up its watch slot; the monitor lives on iff another watcher exists) and optionally finished by Blank.Done under a 1h deadline; " +
 			"oracle (C08's clauses): every call returns no later than its own context ends (virtual time), also the calls issued after an earlier call failed, timed out or the monitor exited (a leaked Blank mutex or a missing answer leaves the bubble deadlocked), nothing panics; " +
 			"non-trivial = a call that met a parked or exited monitor, or a rejected value; distinct = distinct case JSON",
 		Assumptions: []string{"SetSource is called after Config, as documented"},
